@@ -610,7 +610,7 @@ func (r *RegisteredDecoys) track(d *DecoyRegistration) error {
 		regID:            d.IDString(),
 		status:           regStatusUnused,
 	}
-	r.decoysTimeouts[d.IDString()+phantomAddr] = newTimeout
+	r.decoysTimeouts[timeoutKey(phantomAddr, identifier)] = newTimeout
 
 	return nil
 }
@@ -646,13 +646,26 @@ func (r *RegisteredDecoys) register(darkDecoyAddr string, d *DecoyRegistration) 
 	return nil
 }
 
+// timeoutKey indexes decoysTimeouts by the same (phantom, transport identifier) pair that
+// indexes decoys, so that every tracked registration has a timeout record of its own. (A key
+// made of the shared secret and the phantom is the same for one secret registered with two
+// transports.) The textual form of an address never contains '|'.
+func timeoutKey(phantomAddr, identifier string) string {
+	return phantomAddr + "|" + identifier
+}
+
 func (r *RegisteredDecoys) markActive(d *DecoyRegistration) {
 
 	r.m.Lock()
 	defer r.m.Unlock()
 
+	t, ok := r.transports[d.Transport]
+	if !ok {
+		return
+	}
+
 	phantomAddr := d.PhantomIp.String()
-	if regTimeout, ok := r.decoysTimeouts[d.IDString()+phantomAddr]; ok {
+	if regTimeout, ok := r.decoysTimeouts[timeoutKey(phantomAddr, t.GetIdentifier(d))]; ok {
 		regTimeout.status = regStatusUsed
 
 		// Since we update the applicable timeout here, we should update that
